@@ -1,8 +1,10 @@
 #!/bin/bash
-# tools/mut.sh <file-under-/repo/src/cogent3> <python-regex> <replacement> <check args...>
-# applies one textual mutation to /repo (first match only), runs ./check, reverts. For self-tests only.
-f=/repo/src/cogent3/$1; pat=$2; rep=$3; shift 3
-cp "$f" /root/.mut_backup.py
+# tools/mut.sh <file-under-src/cogent3> <python-regex> <replacement> <check args...>
+# Applies one textual mutation to a SCRATCH COPY of /repo/src (never to /repo itself, so concurrently running
+# checks are not disturbed), runs ./check against the copy (VERIF_REPO + PYTHONPATH), removes the copy.
+scratch=$(mktemp -d /tmp/mut_XXXXXX)
+mkdir -p "$scratch/src" && cp -r /repo/src/cogent3 "$scratch/src/cogent3"
+f=$scratch/src/cogent3/$1; pat=$2; rep=$3; shift 3
 python3 - "$f" "$pat" "$rep" <<'PY'
 import re,sys
 f,pat,rep=sys.argv[1:4]
@@ -11,8 +13,8 @@ n=len(re.findall(pat,s))
 s2=re.sub(pat,rep,s,count=1)
 assert s2!=s, "pattern did not match"
 open(f,'w').write(s2)
-print(f"mutated {f}: {n} match(es), first replaced")
+print(f"mutated copy of {f.split('/src/')[1]}: {n} match(es), first replaced")
 PY
 rc=$?
-if [ $rc -eq 0 ]; then (cd /verif && timeout 3000 ./check "$@" 2>&1 | grep -v "^    obligation" | cut -c1-400 | tail -8); fi
-cp /root/.mut_backup.py "$f"; git -C /repo status --short
+if [ $rc -eq 0 ]; then (cd /verif && VERIF_REPO=$scratch VERIF_PYTHONPATH=$scratch/src NUMBA_CACHE_DIR=$scratch/numba timeout 3000 ./check "$@" 2>&1 | grep -v "^    obligation" | cut -c1-400 | tail -8); fi
+rm -rf "$scratch"
